@@ -439,6 +439,8 @@ fn cal_check(y: u16, mo: u8, d: u8, h: u8, mi: u8, s: u8) -> Option<Failure> {
 pub const NAME_ALPHABET: &[char] = &[
     'A', 'Z', 'a', 'z', '0', '9', '.', ' ', '"', '*', '+', ',', '/', ':', ';', '<', '=', '>', '?', '[', '\\', ']', '|', '!', '#', '$', '%', '&', '\'', '(', ')', '-', '@', '^', '_', '`', '{', '}',
     '~', '\u{1}', '\u{1f}', '\u{7f}', '\u{a3}', '\u{c5}', '\u{e5}', '\u{e9}', '\u{ff}', '\u{100}', '\u{20ac}', '\u{1f600}',
+    // the edges of the two Latin-1 letter blocks and the two non-letters inside them
+    '\u{c0}', '\u{d6}', '\u{d7}', '\u{d8}', '\u{de}', '\u{df}', '\u{e0}', '\u{f6}', '\u{f7}', '\u{f8}', '\u{fe}',
 ];
 
 fn sfn_bytes(s: &ShortFileName) -> [u8; 11] {
@@ -613,7 +615,7 @@ pub fn replay_codec(c: &CodecCase) -> Result<(), Failure> {
 
 fn name_strategy() -> BoxedStrategy<String> {
     let ch = (0usize..NAME_ALPHABET.len()).prop_map(|i| NAME_ALPHABET[i]);
-    let valid_ch = prop_oneof![(b'A'..=b'Z').prop_map(|c| c as char), (b'a'..=b'z').prop_map(|c| c as char), (b'0'..=b'9').prop_map(|c| c as char), prop::sample::select(vec!['!', '#', '$', '%', '&', '\'', '(', ')', '-', '@', '^', '_', '`', '{', '}', '~', '\u{a3}', '\u{e9}', '\u{ff}', '\u{e5}'])];
+    let valid_ch = prop_oneof![(b'A'..=b'Z').prop_map(|c| c as char), (b'a'..=b'z').prop_map(|c| c as char), (b'0'..=b'9').prop_map(|c| c as char), prop::sample::select(vec!['!', '#', '$', '%', '&', '\'', '(', ')', '-', '@', '^', '_', '`', '{', '}', '~', '\u{a3}', '\u{e9}', '\u{ff}', '\u{e5}', '\u{d7}', '\u{df}', '\u{f7}']), (0xA1u8..=0xFF).prop_map(|c| c as char)];
     let valid = (prop::collection::vec(valid_ch.clone(), 1..9), prop::option::of(prop::collection::vec(valid_ch.clone(), 0..4))).prop_map(|(b, e)| {
         let mut s: String = b.into_iter().collect();
         if let Some(e) = e {
@@ -816,6 +818,71 @@ pub fn run_c18(tier: Tier, seed: u64) -> i32 {
         acc.class_n("names-enumerated", names_enumerated);
         violation = found.lock().unwrap().take();
     }
+    // ---- names: every code point of ISO-8859-1 (and the first ones beyond) in every position class,
+    //      and every pair of them as a base name and as an extension
+    if violation.is_none() {
+        let found: Mutex<Option<(Failure, serde_json::Value)>> = Mutex::new(None);
+        let cnt = AtomicU64::new(0);
+        let ntc = AtomicU64::new(0);
+        let known_hits: Mutex<std::collections::BTreeMap<String, u64>> = Mutex::new(Default::default());
+        let known_ref = &known;
+        let singles = 0x300u64 * 9;
+        let pairs = 256u64 * 256 * 2;
+        let _ = par_ranges(singles + pairs, |a, b| {
+            let mut n = 0;
+            let mut r = 0;
+            for idx in a..b {
+                let s: String = if idx < singles {
+                    let c = char::from_u32((idx / 9) as u32).unwrap_or('A');
+                    match idx % 9 {
+                        0 => format!("{}", c),
+                        1 => format!("A{}", c),
+                        2 => format!("{}A", c),
+                        3 => format!("AAAAAAA{}", c),
+                        4 => format!("A.{}", c),
+                        5 => format!("A.B{}", c),
+                        6 => format!("A.BB{}", c),
+                        7 => format!("{}.{}", c, c),
+                        _ => format!("AAAAAAAA{}", c),
+                    }
+                } else {
+                    let j = idx - singles;
+                    let c1 = char::from_u32(((j / 2) % 256) as u32).unwrap();
+                    let c2 = char::from_u32(((j / 2) / 256) as u32).unwrap();
+                    if j % 2 == 0 { format!("{}{}", c1, c2) } else { format!("A.{}{}", c1, c2) }
+                };
+                if let Some(f) = name_check(&s) {
+                    if is_open_known(known_ref, "C18", &f.sig) {
+                        *known_hits.lock().unwrap().entry(f.sig.clone()).or_insert(0) += 1;
+                    } else {
+                        *found.lock().unwrap() = Some((f, serde_json::to_value(CodecCase::Name(s)).unwrap()));
+                        return Some(Failure { sig: "x".into(), detail: String::new() });
+                    }
+                }
+                n += 1;
+                // counted as non-trivial: accepted by the reference and not already enumerated above
+                // (templates 1, 2 and 5 are pairs again)
+                let again = idx < singles && matches!(idx % 9, 1 | 2 | 5);
+                if !again && matches!(names::ref_parse(&s), RefName::Valid(_)) && s.chars().any(|c| !NAME_ALPHABET.contains(&c)) {
+                    r += 1;
+                }
+            }
+            cnt.fetch_add(n, Ordering::Relaxed);
+            ntc.fetch_add(r, Ordering::Relaxed);
+            None
+        });
+        for (k, v) in known_hits.into_inner().unwrap() {
+            *acc.known_seen.entry(k).or_insert(0) += v;
+            acc.excluded_known += v;
+        }
+        let n = cnt.load(Ordering::Relaxed);
+        acc.evaluations += n;
+        names_enumerated += n;
+        names_nt += ntc.load(Ordering::Relaxed);
+        acc.class_n("names-every-code-point-and-pair", n);
+        acc.class_n("names-every-code-point-and-pair-valid", ntc.load(Ordering::Relaxed));
+        violation = found.lock().unwrap().take();
+    }
     // ---- generated names and entries
     let mut out = Outcome { acc, violation, wall_s: 0.0 };
     let mut distinct_gen = 0usize;
@@ -876,10 +943,10 @@ pub fn run_c18(tier: Tier, seed: u64) -> i32 {
         tier,
         seed,
         level: "exploration",
-        rule: "timestamps: (date,time) field pairs and calendar timestamps enumerated; names: every string up to length 3 (4 in thorough) over a 50-symbol alphabet covering every class the parser distinguishes, plus proptest-generated valid / one-mutation / random strings up to length 13; directory entries: proptest over boundary values of every field, both FAT types. distinct_nontrivial counts enumerated names that the reference accepts or rejects for a reason other than their first character (distinct by construction, counted) plus generated names longer than 3 and entries (distinct by hash)",
+        rule: "timestamps: (date,time) field pairs and calendar timestamps enumerated; names: every string up to length 3 (4 in thorough) over a 61-symbol alphabet covering every class the parser distinguishes and the edges of the Latin-1 letter blocks, every code point U+0000..U+02FF in nine position classes of base name and extension, every pair of ISO-8859-1 code points as a base name and as an extension, plus proptest-generated valid / one-mutation / random strings up to length 13; directory entries: proptest over boundary values of every field, both FAT types. distinct_nontrivial counts enumerated names that the reference accepts or rejects for a reason other than their first character (distinct by construction, counted) plus generated names longer than 3 and entries (distinct by hash)",
         exhaustive: Some(exhaustive_ts),
         assumptions: vec![
-            "DEL (0x7f) in a name is treated as don't-care; Latin-1 lower-case letters may be stored as typed or upper-cased".into(),
+            "DEL (0x7f) in a name is treated as don't-care; the letters of ISO-8859-1 with an upper-case partner inside it (U+00E0..=U+00FE without the division sign) must be stored upper-cased, every other code point as typed".into(),
             "exhaustive=true only in the thorough tier (all 2^32 date/time pairs, all seconds 1980-2107); the quick tier covers every value of each field with 512 companions".into(),
         ],
         extra: json!({ "distinct_nontrivial": distinct, "names_enumerated": names_enumerated }),
